@@ -71,6 +71,14 @@ def build_tools(need):
                 env["CGO_ENABLED"] = "1"
             rc, out, err = sh(cmd, cwd=cwd, env=env, timeout=1200)
             res[tool] = None if rc == 0 else (out + err)[-4000:]
+            if rc != 0 and tool == "hapi":
+                # the verif-tagged hooks of /repo no longer compile: fall back to the public API only, so that the
+                # end-to-end searches can still look for a failing input
+                cmd2 = ["go", "build", "-o", os.path.join(BIN, tool), "./cmd/" + tool]
+                rc2, out2, err2 = sh(cmd2, cwd=cwd, env=env, timeout=1200)
+                if rc2 == 0:
+                    res["hapi-noverif"] = res[tool]
+                    res[tool] = None
     return res
 
 
@@ -357,6 +365,8 @@ def main(argv):
         broken.append({"kind": "tie", "name": "extract (fact extractors do not build)", "detail": tools["extract"]})
     if tools.get("hinternal"):
         broken.append({"kind": "correspondence", "name": "hinternal does not compile against /repo (internal API changed)", "detail": tools["hinternal"]})
+    if tools.get("hapi-noverif"):
+        broken.append({"kind": "tie", "name": "the verif-tagged hooks of /repo do not compile (search harness rebuilt on the public API only)", "detail": tools["hapi-noverif"]})
     for b in cfg.get("binaries", []):
         if tools.get(b):
             broken.append({"kind": "tie", "name": b + " does not build", "detail": tools[b]})
